@@ -47,9 +47,17 @@ def tree(relpath):
         path = os.path.join(SRC, relpath)
         try:
             with open(path) as f:
-                _trees[relpath] = ast.parse(f.read())
+                mod = ast.parse(f.read())
         except (OSError, SyntaxError) as e:
             raise Missing(f"{relpath}: {e}")
+        # step 0 (canon.py): a function that is, in canonical form, identical to its baseline version is handed to the
+        # extractors as the baseline AST; anything else is left exactly as the working tree has it
+        try:
+            import canon
+            mod = canon.normalise(relpath, mod)
+        except Exception as e:      # the canonicaliser must never be the reason a fragment is lost
+            sys.stderr.write(f"canon: {relpath}: {type(e).__name__}: {e}\n")
+        _trees[relpath] = mod
     return _trees[relpath]
 
 
@@ -563,6 +571,16 @@ def baseline_text(gen_file, name):
 
 def write_baseline(status):
     os.makedirs(BASELINE_DIR, exist_ok=True)
+    # the sources the baseline was generated from (canon.py compares the working tree with them)
+    import shutil
+    src_base = os.path.join(HERE, "src_baseline")
+    shutil.rmtree(src_base, ignore_errors=True)
+    for root, _, files in os.walk(SRC):
+        for fn in files:
+            if fn.endswith(".py"):
+                rel = os.path.relpath(os.path.join(root, fn), SRC)
+                os.makedirs(os.path.dirname(os.path.join(src_base, rel)), exist_ok=True)
+                shutil.copy(os.path.join(root, fn), os.path.join(src_base, rel))
     per_file = {}
     for name, st in status.items():
         if st["status"] != "ok":
